@@ -347,14 +347,14 @@ def case_size(case):
 
 
 def shrink(case, fails):
-    ops = shr.ddmin(case["ops"], lambda o: fails({"ttype": case["ttype"], "ops": o}))
-    case = {"ttype": case["ttype"], "ops": ops}
+    ops = shr.ddmin(case["ops"], lambda o: fails(dict(case, ops=o)))
+    case = dict(case, ops=ops)
     # simplify: priorities -> 5
     for i, op in enumerate(ops):
         if op[0] == "add" and op[2] != 5:
             o2 = [list(x) for x in ops]
             o2[i][2] = 5
-            if fails({"ttype": case["ttype"], "ops": o2}):
+            if fails(dict(case, ops=o2)):
                 ops = o2
                 case["ops"] = ops
     return case
